@@ -251,6 +251,18 @@ template <typename F> static bool guarded(const std::string& op, F f) {
   return false;
 }
 
+// Does the call survive in a forked child?  Used for operations met to kill the process
+// (ppl_unreachable): the defect gets a key and the case continues in this process.
+#include <sys/wait.h>
+template <typename F> static bool survives_in_child(F f) {
+  fflush(0);
+  pid_t pid = fork();
+  if (pid < 0) return true;
+  if (pid == 0) { if (!freopen("/dev/null", "w", stderr)) _exit(0); try { f(); } catch (...) {} _exit(0); }
+  int st = 0; if (waitpid(pid, &st, 0) < 0) return true;
+  return WIFEXITED(st) && WEXITSTATUS(st) == 0;
+}
+
 // ---------- one step's context ----------
 struct StepCtx {
   std::vector<SP>& pool; std::vector<std::string>& lastop;
@@ -464,6 +476,12 @@ static bool mutate(StepCtx& c) {
     } }
   else { op = "simplify_using_context_assign"; usesB = true; t << "." << op << "(#" << c.bi << ")";
     call = [=, &A, &B]() { *bres = A.simplify_using_context_assign(B) ? 1 : 0; };
+    hx::count("crash_probes");
+    if (!survives_in_child([&]() { SP x(A.clone()), y(B.clone()); (void) x->simplify_using_context_assign(*y); })) {
+      tr(c.pre + t.str()); checked();
+      violation(key("C03.crash", op, mag_class(std::vector<const Sys*>{ &SA, &SB }, std::vector<Q>(), Q(0))), "the call kills the process (probed in a forked child); A=" + cut(show(SA), 500) + " B=" + cut(show(SB), 500));
+      return false;
+    }
     extra = [=, &SA, &SB](const Sys& RC) -> bool {
       // meet-preserving enlargement: when the meet is non-empty the result must keep every point of A
       Sys meet = SA; meet.insert(meet.end(), SB.begin(), SB.end());
@@ -485,4 +503,497 @@ static bool mutate(StepCtx& c) {
   if (!pieces.empty()) ok = verify(op, cls03, cls04, mode, pieces, n, RC, ctx);
   if (ok && extra) ok = extra(RC);
   return ok;
+}
+
+// ---------- predicates and queries ----------
+// definite: `true` is the answer that must be trustworthy for every T
+static bool pred(const std::string& q, bool ppl, bool rf, bool definite, const std::string& ctx) {
+  checked(); hx::count("pred_checks");
+  if (definite && ppl && !rf) { violation(key("C03.definite", q), "answered true, false of the denoted sets; " + cut(ctx)); return false; }
+  if (g.ti.exact && ppl != rf) { violation(key("C04.pred", q), std::string("PPL ") + (ppl ? "true" : "false") + ", LP " + (rf ? "true" : "false") + "; " + cut(ctx)); return false; }
+  return true;
+}
+static bool is_cylinder_along(int n, const Sys& S, int v) { std::vector<bool> vars(n, false); vars[v] = true; return ref::esys_in_cons(ref::def_unconstrain(S, n, vars), S, 0, 0); }
+static int ref_affine_dim(int n, const Sys& SA) {
+  std::vector<Vec> eqs;
+  for (size_t i = 0; i < SA.size(); ++i) {
+    Vec a = SA[i].a; a.resize(n); bool z = true; for (int d = 0; d < n; ++d) if (a[d] != 0) z = false; if (z) continue;
+    if (SA[i].rel == ref::EQ) { eqs.push_back(a); continue; }
+    Vec na(n); for (int d = 0; d < n; ++d) na[d] = -a[d];
+    ref::SupResult lo = ref::supremum(n, SA, na);
+    if (lo.bounded && -lo.sup == SA[i].b) eqs.push_back(a);
+  }
+  return n - ref::rank_of(eqs, n);
+}
+
+static bool queries(StepCtx& c) {
+  const int n = c.n; Shape& A = c.A(); Shape& B = c.B(); const Sys& SA = c.SA; const Sys& SB = c.SB;
+  const bool ex = g.ti.exact;
+  bool ne = ref::feasible(n, SA);
+  std::string ctxA = "A=" + cut(show(SA), 600), ctxAB = ctxA + " B=" + cut(show(SB), 600);
+  int which = rnd(0, 9); if (n == 0 && which == 5) which = 0;
+  bool ok = true;
+  std::string qn;
+  bool done = guarded("query", [&]() {
+    switch (which) {
+    case 0: { qn = "unary_preds"; tr(c.pre + ".unary_preds()"); hx::count("q.unary");
+      bool e = A.is_empty(); if (!(ok = pred("is_empty", e, !ne, true, ctxA))) return;
+      if (ex) {
+        ESys U; U.n = n; if (!(ok = pred("is_universe", A.is_universe(), ref::esys_in_cons(U, SA, 0, 0), false, ctxA))) return;
+        bool rbd = true; if (ne) for (int i = 0; i < n && rbd; ++i) for (int s = -1; s <= 1; s += 2) { Vec a(n); a[i] = s; if (!ref::supremum(n, SA, a).bounded) rbd = false; }
+        if (!(ok = pred("is_bounded", A.is_bounded(), rbd, false, ctxA))) return;
+        if (!(ok = pred("is_topologically_closed", A.is_topologically_closed(), true, false, ctxA))) return;
+      } else { (void) A.is_universe(); (void) A.is_bounded(); }
+      (void) A.is_discrete();
+      break; }
+    case 1: case 2: { qn = "binary_preds"; tr(c.pre + ".binary_preds(#" + std::to_string(c.bi) + ")"); hx::count("q.binary");
+      bool rc = sys_included(n, SB, SA), rcb = sys_included(n, SA, SB);
+      if (!(ok = pred("contains", A.contains(B), rc, true, ctxAB))) return;
+      bool sc = A.strictly_contains(B);
+      if (ex) { if (!(ok = pred("strictly_contains", sc, rc && !rcb, false, ctxAB))) return; }
+      else if (sc) { if (!(ok = pred("strictly_contains", sc, rc, true, ctxAB))) return; }
+      Sys T = SA; T.insert(T.end(), SB.begin(), SB.end());
+      if (!(ok = pred("is_disjoint_from", A.is_disjoint_from(B), !ref::feasible(n, T), true, ctxAB))) return;
+      bool eq = A.equals(B);
+      if (ex) { if (!(ok = pred("equals", eq, rc && rcb, false, ctxAB))) return; }
+      break; }
+    case 3: case 4: { Constraint cn = coin(40) ? rep_con(n, g.kind) : any_con(n, true);
+      qn = "relation_with_constraint"; tr(c.pre + ".relation_with(" + str(cn) + ")"); hx::count("q.relation_with_c");
+      Poly_Con_Relation r = A.relation_with(cn);
+      Con rc = ref::conv(cn, n); Sys T = SA; T.push_back(rc);
+      bool meet = ref::feasible(n, T); bool inc = sys_included(n, SA, Sys(1, rc));
+      Con hyp = rc; hyp.rel = ref::EQ; bool sat = sys_included(n, SA, Sys(1, hyp));
+      std::string d = str(cn) + " -> " + str(r) + "; " + ctxA;
+      if (!(ok = pred("relation_with_c.is_disjoint", r.implies(Poly_Con_Relation::is_disjoint()), !meet, true, d))) return;
+      if (!(ok = pred("relation_with_c.is_included", r.implies(Poly_Con_Relation::is_included()), inc, true, d))) return;
+      if (!(ok = pred("relation_with_c.saturates", r.implies(Poly_Con_Relation::saturates()), sat, true, d))) return;
+      if (ex && !(ok = pred("relation_with_c.strictly_intersects", r.implies(Poly_Con_Relation::strictly_intersects()), meet && !inc, false, d))) return;
+      break; }
+    case 5: { int v = rnd(0, n - 1); qn = "constrains"; tr(c.pre + ".constrains(" + str(Variable(v)) + ")"); hx::count("q.constrains");
+      bool cc = A.constrains(Variable(v));
+      if (!ne || !ex) break;   // documentation silent about empty elements
+      ok = pred("constrains", cc, !is_cylinder_along(n, SA, v), false, ctxA);
+      break; }
+    case 6: { qn = "affine_dimension"; tr(c.pre + ".affine_dimension()"); hx::count("q.affine_dimension");
+      int ad = A.affine_dimension();
+      if (!ex) break;
+      int rad = ne ? ref_affine_dim(n, SA) : 0; checked();
+      if (ad != rad) { violation(key("C04.pred", "affine_dimension"), "PPL " + std::to_string(ad) + " LP " + std::to_string(rad) + "; " + ctxA); ok = false; }
+      break; }
+    case 7: case 8: { // bounds / optima
+      Linear_Expression e = coin(40) ? Linear_Expression(rep_con(n, g.kind).expression()) + small_coeff(4) : rexpr(n, 30); bool mx = coin();
+      qn = mx ? "maximize" : "minimize"; tr(c.pre + "." + qn + "(" + str(e) + ")"); hx::count("q.max_min");
+      Coefficient num, den, num2, den2; bool att = false, att2 = false; Generator gp(point());
+      bool bf = mx ? A.bounds_from_above(e) : A.bounds_from_below(e);
+      bool o1 = mx ? A.maximize(e, num, den, att, gp) : A.minimize(e, num, den, att, gp);
+      bool o2 = mx ? A.maximize(e, num2, den2, att2) : A.minimize(e, num2, den2, att2);
+      Vec ea; Q eb; ref::conv(e, n, ea, eb); Vec oa = ea; if (!mx) for (size_t i = 0; i < ea.size(); ++i) ea[i] = -ea[i];
+      ref::SupResult s = ref::supremum(n, SA, ea);
+      std::string d = str(e) + "; " + ctxA;
+      if (!ne) break;   // silent on empty elements (bounds_*), and a sound shape may not know it is empty
+      if (!(ok = pred(mx ? "bounds_from_above" : "bounds_from_below", bf, s.bounded, true, d))) return;
+      if (!(ok = pred(qn + ".status", o1, s.bounded, true, d))) return;
+      if (!(ok = pred(qn + ".status", o2, s.bounded, true, d))) return;
+      Q rv = mx ? Q(s.sup + eb) : Q(-s.sup + eb);
+      std::string vcls; { std::vector<Q> cf; Q ih = 0; qvec(e, n, Coefficient(1), cf, ih); vcls = mag_class(std::vector<const Sys*>{ &SA }, cf, ih); }
+      for (int w = 0; w < 2 && ok; ++w) {
+        if (!(w ? o2 : o1)) continue;
+        if ((w ? den2 : den) == 0) { violation(key("C03.definite", qn + ".value"), "zero denominator; " + d); ok = false; break; }
+        Q val = ref::toQ(w ? num2 : num) / ref::toQ(w ? den2 : den); checked();
+        bool unsafe = mx ? (val < rv) : (val > rv);
+        if (unsafe) { violation(key("C03.definite", qn + ".value", vcls), "reported " + qs(val) + " but the true " + (mx ? "supremum" : "infimum") + " is " + qs(rv) + "; " + d); ok = false; break; }
+        if (ex && val != rv) { violation(key("C04.pred", qn + ".value"), "reported " + qs(val) + ", LP " + qs(rv) + "; " + d); ok = false; break; }
+        if (ex && !(w ? att2 : att)) { violation(key("C04.pred", qn + ".attained"), "closed element but optimum reported as not attained; " + d); ok = false; break; }
+      }
+      if (ok && ex && o1) { // witness: a point of the element where the optimum is attained
+        Gen rg = ref::conv(gp, n); checked();
+        if (!gp.is_point() || !ref::sat(SA, rg.v) || ref::dot(oa, rg.v) + eb != rv) { violation(key("C04.pred", qn + ".witness"), "witness " + str(gp) + " is not a point of the element attaining the optimum; " + d); ok = false; }
+      }
+      break; }
+    default: { // relation with generators and congruences
+      if (coin()) {
+        Generator gg = rand_gen(n, false, false); qn = "relation_with_generator"; tr(c.pre + ".relation_with(" + str(gg) + ")"); hx::count("q.relation_with_g");
+        Poly_Gen_Relation r = A.relation_with(gg);
+        if (!ex) break;
+        Gen rg = ref::conv(gg, n); bool subs;
+        if (!ne) subs = false;
+        else if (rg.kind == Gen::POINT || rg.kind == Gen::CLOSURE_POINT) subs = ref::sat(SA, rg.v);
+        else { subs = true; for (size_t i = 0; i < SA.size() && subs; ++i) { Q v = ref::dot(SA[i].a, rg.v); if (rg.kind == Gen::LINE || SA[i].rel == ref::EQ) subs = (v == 0); else subs = (v <= 0); } }
+        ok = pred("relation_with_g.subsumes", r.implies(Poly_Gen_Relation::subsumes()), subs, false, str(gg) + "; " + ctxA);
+      } else {
+        Congruence cg = rand_cg(n, 4); qn = "relation_with_congruence"; tr(c.pre + ".relation_with(" + str(cg) + ")"); hx::count("q.relation_with_cg");
+        Poly_Con_Relation r = A.relation_with(cg);
+        Vec ea(n); for (int d = 0; d < n && d < (int) cg.space_dimension(); ++d) ea[d] = ref::toQ(cg.coefficient(Variable(d)));
+        Q eb = ref::toQ(cg.inhomogeneous_term()); Q m = ref::toQ(cg.modulus());
+        bool included, disjoint;
+        if (!ne) { included = true; disjoint = true; }
+        else {
+          Vec nea(n); for (int i = 0; i < n; ++i) nea[i] = -ea[i];
+          ref::SupResult hi = ref::supremum(n, SA, ea), lo = ref::supremum(n, SA, nea);
+          bool constant = hi.bounded && lo.bounded && hi.sup == -lo.sup;
+          if (m == 0) { // equality
+            Q z = -eb; included = constant && hi.sup == z;
+            disjoint = (hi.bounded && hi.sup < z) || (lo.bounded && -lo.sup > z);
+          }
+          else if (constant) { Q kq = (hi.sup + eb) / m; included = (kq.get_den() == 1); disjoint = !included; }
+          else {
+            included = false; bool found;
+            if (!lo.bounded || !hi.bounded) found = true;
+            else { Q l = -lo.sup + eb, u = hi.sup + eb; Q kl = l / m; mpz_class kc; mpz_cdiv_q(kc.get_mpz_t(), kl.get_num_mpz_t(), kl.get_den_mpz_t()); Q cand = Q(kc) * m; found = (cand <= u); }
+            disjoint = !found;
+          }
+        }
+        std::string d = str(cg) + " -> " + str(r) + "; " + ctxA;
+        if (!(ok = pred("relation_with_cg.is_disjoint", r.implies(Poly_Con_Relation::is_disjoint()), disjoint, true, d))) return;
+        if (!(ok = pred("relation_with_cg.is_included", r.implies(Poly_Con_Relation::is_included()), included, true, d))) return;
+        if (ex && !(ok = pred("relation_with_cg.strictly_intersects", r.implies(Poly_Con_Relation::strictly_intersects()), !disjoint && !included, false, d))) return;
+      }
+      break; }
+    }
+  });
+  if (nontrivial(c.clsA)) hx::distinct("query|" + g.inst + "|" + qn + "|" + c.stw + "|" + c.clsA);
+  return done && ok;
+}
+
+// ---------- observers that move the internal state; the denotation must not move ----------
+static bool observers(StepCtx& c) {
+  const int n = c.n; Shape& A = c.A(); const Sys& SA = c.SA;
+  int k = rnd(0, 6); const char* nm[7] = { "minimized_constraints", "constraints", "congruences", "minimized_congruences", "is_empty", "OK", "misc" };
+  std::string op = std::string("observe:") + nm[k];
+  tr(c.pre + "." + op); hx::count(std::string("obs.") + nm[k]);
+  if (nontrivial(c.clsA)) hx::distinct("obs|" + g.inst + "|" + nm[k] + "|" + c.stw + "|" + c.clsA);
+  bool ok = true;
+  std::string ctxA = "A=" + cut(show(SA), 600);
+  if (!guarded(op, [&]() {
+    if (k == 0 || k == 1) {
+      Constraint_System cs = k == 0 ? A.minimized_constraints() : A.constraints();
+      Sys M = ref::conv(cs, n);
+      ok = check_sound(nm[k], "", ref::esys_of(SA, n), M, ctxA + " reported " + cut(show(M), 500));
+      if (ok && g.ti.exact) { checked(); if (!sys_included(n, M, SA)) { violation(key("C04.exact", nm[k]), "reported system denotes a larger set; " + ctxA + " reported " + cut(show(M), 500)); ok = false; } }
+    } else if (k == 2 || k == 3) {
+      Congruence_System cg = k == 2 ? A.congruences() : A.minimized_congruences();
+      for (Congruence_System::const_iterator i = cg.begin(); i != cg.end() && ok; ++i) {
+        if (!i->is_equality()) { if (i->is_inconsistent()) { if (ref::feasible(n, SA)) { violation(key("C03.definite", nm[k]), "inconsistent congruence reported for a non-empty element; " + ctxA); ok = false; } } continue; }
+        Vec a(n); for (int d = 0; d < n && d < (int) i->space_dimension(); ++d) a[d] = ref::toQ(i->coefficient(Variable(d))); Q b = ref::toQ(i->inhomogeneous_term());
+        checked();
+        if (!sys_included(n, SA, Sys(1, Con(a, Q(-b), ref::EQ)))) { violation(key("C03.definite", nm[k]), "reported equality " + str(*i) + " does not hold on the element; " + ctxA); ok = false; }
+      }
+    } else if (k == 4) (void) A.is_empty();
+    else if (k == 5) { checked(); if (!A.OK()) { violation(key("C03.sound", "OK"), "OK() is false; " + ctxA); ok = false; } }
+    else A.misc_observers();
+  })) return false;
+  if (!ok) return false;
+  Sys now; std::string w; if (!status_word(A, w, op) || !observe(A, now, op)) return false;
+  if (!check_sound("observer", "", ref::esys_of(SA, n), now, std::string(nm[k]) + " lost points; " + ctxA + " now " + cut(show(now), 500))) return false;
+  if (g.ti.exact) { checked(); if (!sys_included(n, now, SA)) { violation(key("C04.exact", "observer"), std::string(nm[k]) + " changed the denoted set; " + ctxA + " now " + cut(show(now), 500)); return false; } }
+  return true;
+}
+
+// ---------- converting constructors ----------
+// The source's denotation is known by construction: either a constraint list we inserted
+// ourselves (Sys) or a generator list (Gens, hull / lattice semantics evaluated arithmetically).
+struct GenTruth { Gens gs; bool lattice; };   // lattice: RAY entries are grid parameters (integer multiples)
+static bool gens_sup(const GenTruth& G, const Vec& d, bool& nonempty, bool& bounded, Q& sup) {
+  nonempty = false; bounded = true; bool first = true;
+  for (size_t i = 0; i < G.gs.size(); ++i) {
+    const Gen& x = G.gs[i]; Q v = ref::dot(d, x.v);
+    if (x.kind == Gen::POINT || x.kind == Gen::CLOSURE_POINT) { nonempty = true; if (first || v > sup) { sup = v; first = false; } }
+    else if (x.kind == Gen::LINE || G.lattice) { if (v != 0) bounded = false; }
+    else if (v > 0) bounded = false;
+  }
+  return nonempty;
+}
+static bool ctor_check_gens(const std::string& op, const GenTruth& G, int n, const Sys& RC, bool best, const std::string& ctx) {
+  checked(); hx::count("ctor_checks");
+  // soundness: every constraint of the result holds on the generated set (plain arithmetic)
+  for (size_t i = 0; i < RC.size(); ++i) {
+    bool ne, bd; Q s = 0; Vec a = RC[i].a; a.resize(n);
+    if (!gens_sup(G, a, ne, bd, s)) break;
+    bool bad = !bd || s > RC[i].b;
+    if (!bad && RC[i].rel == ref::EQ) { Vec na(n); for (int d = 0; d < n; ++d) na[d] = -a[d]; bool ne2, bd2; Q s2 = 0; gens_sup(G, na, ne2, bd2, s2); bad = !bd2 || -s2 < RC[i].b; }
+    if (bad) { violation(key("C03.sound", op), "source point set violates result constraint " + cut(show(RC[i]), 300) + "; " + cut(ctx)); return false; }
+  }
+  if (!best || !g.ti.exact) return true;
+  bool ne, bd; Q s = 0; bool src_nonempty = gens_sup(G, Vec(n), ne, bd, s);
+  bool rne = ref::feasible(n, RC);
+  if (!src_nonempty) { if (rne) { violation(key("C04.best", op), "source empty, result not; " + cut(ctx)); return false; } return true; }
+  std::vector<Vec> dirs = template_dirs(g.kind, n);
+  for (size_t di = 0; di < dirs.size(); ++di) {
+    gens_sup(G, dirs[di], ne, bd, s);
+    ref::SupResult sr = ref::supremum(n, RC, dirs[di]);
+    if (bd != sr.bounded || (bd && s != sr.sup)) { violation(key("C04.best", op), "direction " + show(dirs[di]) + ": sup over the source " + (bd ? qs(s) : std::string("+inf")) + ", over the result " + (sr.bounded ? qs(sr.sup) : std::string("+inf")) + "; " + cut(ctx)); return false; }
+  }
+  return true;
+}
+static const char* const CCN[3] = { "POLYNOMIAL", "SIMPLEX", "ANY" };
+static Gens conv_gens(const std::vector<Generator>& gv, int n) { Gens G; for (size_t i = 0; i < gv.size(); ++i) G.push_back(ref::conv(gv[i], n)); return G; }
+
+static bool constructors(StepCtx& c) {
+  const int n = c.n; Shape& A = c.A();
+  int which = rnd(0, 9); Complexity_Class cc = (Complexity_Class) rnd(0, 2);
+  SP R; std::string op; std::ostringstream t; bool ok = true;
+  Sys truth; GenTruth gt; gt.lattice = false; bool by_gens = false; Mode mode = SOUND_ONLY; std::string ctx;
+  Kind other = g.kind == K_BD ? K_OCT : K_BD;
+  if (which <= 2) { // from a C / NNC polyhedron described by constraints or by generators
+    bool nnc = coin(); bool fromg = coin(35);
+    op = std::string(nnc ? "from_NNC_Polyhedron" : "from_C_Polyhedron") + "." + CCN[cc];
+    if (!fromg) {
+      std::vector<Constraint> cv; int k = rnd(0, 4); for (int i = 0; i < k; ++i) cv.push_back(coin(35) ? rep_con(n, K_OCT) : any_con(n, nnc));
+      t << op << "(constraints " << str_cons(cv) << ")"; tr(c.pre + " = " + t.str());
+      for (size_t i = 0; i < cv.size(); ++i) truth.push_back(ref::conv(cv[i], n));
+      ok = guarded(op, [&]() {
+        if (nnc) { NNC_Polyhedron ph(n); for (size_t i = 0; i < cv.size(); ++i) ph.add_constraint(cv[i]); if (coin(30)) (void) ph.minimized_generators(); R.reset(A.from_polyhedron(ph, cc)); }
+        else { C_Polyhedron ph(n); for (size_t i = 0; i < cv.size(); ++i) ph.add_constraint(cv[i]); if (coin(30)) (void) ph.minimized_generators(); R.reset(A.from_polyhedron(ph, cc)); }
+      });
+    } else {
+      std::vector<Generator> gv; int k = rnd(1, 4); gv.push_back(rand_gen(n, false, true)); for (int i = 1; i < k; ++i) gv.push_back(rand_gen(n, nnc, false));
+      t << op << "(generators"; for (size_t i = 0; i < gv.size(); ++i) t << " " << str(gv[i]); t << ")"; tr(c.pre + " = " + t.str());
+      gt.gs = conv_gens(gv, n); by_gens = true;
+      ok = guarded(op, [&]() {
+        Generator_System gs; for (size_t i = 0; i < gv.size(); ++i) gs.insert(gv[i]);
+        if (nnc) { NNC_Polyhedron ph(gs); if ((int) ph.space_dimension() < n) ph.add_space_dimensions_and_project(n - ph.space_dimension()); if (coin(30)) (void) ph.minimized_constraints(); R.reset(A.from_polyhedron(ph, cc)); }
+        else { C_Polyhedron ph(gs); if ((int) ph.space_dimension() < n) ph.add_space_dimensions_and_project(n - ph.space_dimension()); if (coin(30)) (void) ph.minimized_constraints(); R.reset(A.from_polyhedron(ph, cc)); }
+      });
+    }
+    mode = (cc == ANY_COMPLEXITY) ? BEST : SOUND_ONLY;
+  }
+  else if (which == 3) { // from a generator system
+    op = "from_Generator_System";
+    std::vector<Generator> gv; int k = rnd(1, 4); gv.push_back(rand_gen(n, false, true)); for (int i = 1; i < k; ++i) gv.push_back(rand_gen(n, coin(20), false));
+    t << op << "("; for (size_t i = 0; i < gv.size(); ++i) t << " " << str(gv[i]); t << ")"; tr(c.pre + " = " + t.str());
+    gt.gs = conv_gens(gv, n); by_gens = true; mode = BEST;
+    ok = guarded(op, [&]() { Generator_System gs; for (size_t i = 0; i < gv.size(); ++i) gs.insert(gv[i]); R.reset(A.from_generators(gs)); if (R->dim() < n) R->add_space_dimensions_and_project(n - R->dim()); });
+  }
+  else if (which == 4) { // from a grid
+    op = std::string("from_Grid.") + CCN[cc]; by_gens = true; gt.lattice = true; mode = BEST;
+    Grid gr(n, EMPTY); std::ostringstream d;
+    int k = coin(12) ? 0 : rnd(1, 3);
+    for (int i = 0; i < k; ++i) {
+      Linear_Expression e; for (int j = 0; j < n; ++j) if (!coin(35)) e += rnd(-4, 4) * Variable(j);
+      Gen x; x.v.assign(n, Q(0));
+      if (i == 0) { int dv = rnd(1, 3); e += 0 * Variable(n > 0 ? n - 1 : 0); if (n == 0) e = Linear_Expression(0); gr.add_grid_generator(grid_point(e, dv)); x.kind = Gen::POINT; for (int j = 0; j < n; ++j) x.v[j] = ref::toQ(e.coefficient(Variable(j))) / dv; d << " point(" << str(e) << ")/" << dv; }
+      else {
+        if (n == 0) continue;
+        if (e.all_homogeneous_terms_are_zero()) e += Variable(rnd(0, n - 1));
+        if (coin(70)) { int dv = rnd(1, 3); gr.add_grid_generator(parameter(e, dv)); x.kind = Gen::RAY; for (int j = 0; j < n; ++j) x.v[j] = ref::toQ(e.coefficient(Variable(j))) / dv; d << " parameter(" << str(e) << ")/" << dv; }
+        else { gr.add_grid_generator(grid_line(e)); x.kind = Gen::LINE; for (int j = 0; j < n; ++j) x.v[j] = ref::toQ(e.coefficient(Variable(j))); d << " line(" << str(e) << ")"; }
+      }
+      gt.gs.push_back(x);
+    }
+    t << op << "(" << d.str() << ")"; tr(c.pre + " = " + t.str());
+    ok = guarded(op, [&]() { if (coin()) (void) gr.minimized_congruences(); R.reset(A.from_grid(gr, cc)); });
+  }
+  else if (which == 5) { // from a rational box (open and closed bounds)
+    op = std::string("from_Rational_Box.") + CCN[cc]; mode = BEST;
+    std::vector<Constraint> cv; int k = n == 0 ? 0 : rnd(0, 4);
+    for (int i = 0; i < k; ++i) { mpz_class a, b; rand_bound(a, b); Linear_Expression e = Coefficient(a) * Variable(rnd(0, n - 1)); int r = rnd(0, 5); Coefficient cb(b); cv.push_back(r == 0 ? Constraint(e == cb) : r == 1 ? Constraint(e < cb) : r == 2 ? Constraint(e > cb) : r == 3 ? Constraint(e >= cb) : Constraint(e <= cb)); }
+    t << op << "(" << str_cons(cv) << ")"; tr(c.pre + " = " + t.str());
+    for (size_t i = 0; i < cv.size(); ++i) truth.push_back(ref::conv(cv[i], n));
+    ok = guarded(op, [&]() { Rational_Box bx(n); for (size_t i = 0; i < cv.size(); ++i) bx.add_constraint(cv[i]); R.reset(A.from_box(bx, cc)); });
+  }
+  else if (which == 6 || which == 7) { // from the other shape domain (same T) / the same domain over another coefficient type
+    bool dom = which == 6; op = std::string(dom ? "from_other_domain." : "from_other_coefficient.") + CCN[cc]; mode = BEST;
+    std::vector<Constraint> cv; int k = rnd(0, 4); for (int i = 0; i < k; ++i) cv.push_back(rep_con(n, dom ? other : g.kind));
+    Constraint_System cs; for (size_t i = 0; i < cv.size(); ++i) cs.insert(cv[i]);
+    t << op << "(" << str_cons(cv) << ")"; tr(c.pre + " = " + t.str());
+    Constraint_System seen;
+    ok = guarded(op, [&]() { R.reset(dom ? A.from_other_domain(n, cs, cc, seen) : A.from_other_coefficient(n, cs, cc, seen)); });
+    if (ok) truth = ref::conv(seen, n);   // the source's own denotation
+  }
+  else { // from constraint / congruence systems (representable constraints only): exact
+    bool cgs = which == 9; op = cgs ? "from_Congruence_System" : "from_Constraint_System"; mode = EXACT;
+    std::vector<Constraint> cv; int k = rnd(0, 4); for (int i = 0; i < k; ++i) cv.push_back(rep_con(n, g.kind, cgs ? 100 : 15));
+    t << op << "(" << str_cons(cv) << ")"; tr(c.pre + " = " + t.str());
+    for (size_t i = 0; i < cv.size(); ++i) truth.push_back(ref::conv(cv[i], n));
+    ok = guarded(op, [&]() {
+      if (cgs) { Congruence_System s; for (size_t i = 0; i < cv.size(); ++i) { Linear_Expression e(cv[i].expression()); s.insert((e %= 0) / 0); } R.reset(A.from_congruences(s)); }
+      else { Constraint_System s; for (size_t i = 0; i < cv.size(); ++i) s.insert(cv[i]); R.reset(A.from_constraints(s)); }
+      if (R->dim() < n) R->add_space_dimensions_and_embed(n - R->dim());
+    });
+  }
+  hx::count("op." + op.substr(0, op.find('.'))); hx::distinct("ctor|" + g.inst + "|" + op);
+  if (!ok) return false;
+  Sys RC; std::string w; if (!status_word(*R, w, op) || !observe(*R, RC, op)) return false;
+  if (R->dim() != n) { violation(key("C03.sound", op, "dimension"), "wrong space dimension"); return false; }
+  ctx = t.str() + " R=" + cut(show(RC), 500);
+  if (by_gens) ok = ctor_check_gens(op, gt, n, RC, mode != SOUND_ONLY, ctx);
+  else {
+    std::string cls = mag_class(std::vector<const Sys*>{ &truth }, std::vector<Q>(1, Q(1)), Q(0));
+    ok = verify(op, cls, "", mode, std::vector<ESys>(1, ref::esys_of(truth, n)), n, RC, ctx);
+  }
+  if (!ok) return false;
+  // build further state on the converted object
+  if (coin(60)) { c.pool[c.ai] = std::move(R); c.lastop[c.ai] = op; }
+  return true;
+}
+
+// ---------- dimension-changing operators (on a scratch copy) ----------
+static bool dims_op(StepCtx& c) {
+  const int n = c.n; const Sys& SA = c.SA; const Sys& SB = c.SB;
+  SP Tm(c.A().clone()); Shape& X = *Tm;
+  int which = rnd(0, 7); std::string op; std::ostringstream t; std::vector<ESys> pieces; Mode mode = EXACT; int rn = n; bool usesB = false;
+  std::function<void()> call;
+  if ((which == 3 || which == 6) && n < 1) which = 0;
+  if (which == 4 && n < 2) which = 1;
+  if (which == 0) { int m = rnd(0, 2); bool proj = coin(); op = proj ? "add_space_dimensions_and_project" : "add_space_dimensions_and_embed"; t << "." << op << "(" << m << ")";
+    call = [=, &X]() { if (proj) X.add_space_dimensions_and_project(m); else X.add_space_dimensions_and_embed(m); }; pieces.push_back(ref::def_add_dims(SA, n, m, proj)); rn = n + m; }
+  else if (which == 1) { std::vector<int> keep; Variables_Set vs; for (int i = 0; i < n; ++i) { if (coin(40)) vs.insert(Variable(i)); else keep.push_back(i); }
+    op = "remove_space_dimensions"; t << "." << op << "(" << str(vs) << ")"; call = [=, &X]() { X.remove_space_dimensions(vs); }; pieces.push_back(ref::def_project_onto(SA, n, keep)); rn = keep.size(); }
+  else if (which == 2) { int k = rnd(0, n); std::vector<int> keep; for (int i = 0; i < k; ++i) keep.push_back(i);
+    op = "remove_higher_space_dimensions"; t << "." << op << "(" << k << ")"; call = [=, &X]() { X.remove_higher_space_dimensions(k); }; pieces.push_back(ref::def_project_onto(SA, n, keep)); rn = k; }
+  else if (which == 3) { int i = rnd(0, n - 1), m = rnd(0, 2); op = "expand_space_dimension"; t << "." << op << "(" << str(Variable(i)) << ", " << m << ")";
+    call = [=, &X]() { X.expand_space_dimension(Variable(i), m); }; pieces.push_back(ref::def_expand(SA, n, i, m)); rn = n + m; }
+  else if (which == 4) { int i = rnd(0, n - 1); std::vector<int> J; Variables_Set vs; for (int j = 0; j < n; ++j) if (j != i && coin(60)) { J.push_back(j); vs.insert(Variable(j)); }
+    op = "fold_space_dimensions"; t << "." << op << "(" << str(vs) << ", " << str(Variable(i)) << ")"; call = [=, &X]() { X.fold_space_dimensions(vs, Variable(i)); };
+    std::vector<int> keepidx; for (int j = 0; j < n; ++j) if (std::find(J.begin(), J.end(), j) == J.end()) keepidx.push_back(j);
+    int k = keepidx.size(); rn = k; std::vector<int> srcs = J; srcs.push_back(i);
+    for (size_t s = 0; s < srcs.size(); ++s) { // y_j = x_keep[j], except the destination which reads x_src
+      ESys T; T.n = k; T.aux = n; int nv = k + n;
+      for (size_t r = 0; r < SA.size(); ++r) T.s.push_back(ref::shift(SA[r], nv, k));
+      for (int j = 0; j < k; ++j) { Vec a(nv); a[j] = 1; a[k + (keepidx[j] == i ? srcs[s] : keepidx[j])] -= 1; T.s.push_back(Con(a, Q(0), ref::EQ)); }
+      pieces.push_back(T);
+    }
+    mode = J.empty() ? EXACT : BEST; }
+  else if (which == 5) { op = "concatenate_assign"; usesB = true; t << "." << op << "(#" << c.bi << ")"; Shape& B = c.B(); call = [&X, &B]() { X.concatenate_assign(B); }; pieces.push_back(ref::def_concat(SA, n, SB, n)); rn = 2 * n; }
+  else if (which == 6) { Partial_Function pf; std::vector<int> img(n, -1); std::vector<int> order; for (int j = 0; j < n; ++j) order.push_back(j); std::shuffle(order.begin(), order.end(), hx::rng());
+    int k = rnd(0, n); for (int j = 0; j < k; ++j) img[order[j]] = j;
+    std::ostringstream ms; for (int j = 0; j < n; ++j) if (img[j] >= 0) { pf.insert(j, img[j]); ms << j << "->" << img[j] << " "; }
+    op = "map_space_dimensions"; t << "." << op << "(" << ms.str() << ")"; call = [=, &X]() { X.map_space_dimensions(pf); }; pieces.push_back(ref::def_map_dims(SA, n, img, k)); rn = k; }
+  else { // dimension round trip applied to the pool object itself (moves its internal state)
+    int m = rnd(1, 2); op = "embed_then_remove"; t << "." << op << "(" << m << ")"; Shape& A = c.A();
+    call = [=, &A]() { A.add_space_dimensions_and_embed(m); A.remove_higher_space_dimensions(n); };
+    pieces.push_back(ref::esys_of(SA, n)); Tm.reset(); }
+  tr(c.pre + (Tm ? ".tmp" : "") + t.str()); hx::count("op." + op);
+  if (nontrivial(c.clsA)) hx::distinct("dims|" + g.inst + "|" + op + "|" + c.stw + "|" + c.clsA);
+  if (!Tm) c.lastop[c.ai] = op;
+  if (!guarded(op, call)) return false;
+  Shape& R = Tm ? *Tm : c.A();
+  Sys RC; std::string w; if (!status_word(R, w, op) || !observe(R, RC, op)) return false;
+  if (R.dim() != rn) { violation(key("C03.sound", op, "dimension"), "space dimension " + std::to_string(R.dim()) + " instead of " + std::to_string(rn)); return false; }
+  std::vector<const Sys*> margs; margs.push_back(&SA); if (usesB) margs.push_back(&SB);
+  std::string cls = mag_class(margs, std::vector<Q>(), Q(0));
+  return verify(op, cls, "", mode, pieces, rn, RC, "A=" + cut(show(SA), 500) + (usesB ? " B=" + cut(show(SB), 500) : "") + " R=" + cut(show(RC), 500));
+}
+
+// ---------- history independence (unbounded rationals only) ----------
+static bool twin_check(StepCtx& c) {
+  const int n = c.n; Shape& A = c.A(); const Sys& SA = c.SA;
+  int how = rnd(0, 3); SP T; bool ok = true;
+  const char* nm[4] = { "minimized_constraints", "shuffled_constraints", "closed_copy", "generators_of_polyhedron" };
+  tr(c.pre + ".twin(" + nm[how] + ")"); hx::count("twins");
+  if (nontrivial(c.clsA)) hx::distinct("twin|" + g.inst + "|" + nm[how] + "|" + c.stw + "|" + c.clsA);
+  if (!guarded("twin", [&]() {
+    SP cp(A.clone());
+    if (how == 0) { T.reset(A.make(n, false)); T->add_constraints(cp->minimized_constraints()); }
+    else if (how == 1) { Constraint_System cs = cp->constraints(); std::vector<Constraint> v(cs.begin(), cs.end()); std::shuffle(v.begin(), v.end(), hx::rng());
+      T.reset(A.make(n, false)); for (size_t i = 0; i < v.size(); ++i) { T->add_constraint(v[i]); if (coin(30)) { Linear_Expression e(v[i].expression()); e *= rnd(2, 3); if (v[i].is_equality()) T->add_constraint(e == 0); else T->add_constraint(e >= 0); } } }
+    else if (how == 2) { T.reset(A.clone()); (void) T->is_empty(); if (coin()) (void) T->minimized_constraints(); }
+    else { C_Polyhedron ph(cp->constraints()); if ((int) ph.space_dimension() < n) ph.add_space_dimensions_and_embed(n - ph.space_dimension()); (void) ph.minimized_generators(); T.reset(A.from_polyhedron(ph, ANY_COMPLEXITY)); }
+  })) return false;
+  Sys ST; if (!observe(*T, ST, "twin")) return false;
+  checked();
+  if (!sys_equal(n, SA, ST)) { violation(key("C04.exact", std::string("twin.") + nm[how]), "rebuilt element denotes a different set: " + cut(show(ST), 500) + " vs " + cut(show(SA), 500)); return false; }
+  std::string ctx = std::string("twin built via ") + nm[how] + "; A=" + cut(show(SA), 600) + " twin=" + cut(show(ST), 600);
+  if (!guarded("twin", [&]() {
+    SP X(A.clone());
+    std::ostringstream a, b;
+    if (!X->equals(*T) || !T->equals(*X)) { violation(key("C04.pred", "equals", "twin"), "equal point sets compare different; " + ctx); ok = false; return; }
+    if (!X->contains(*T) || !T->contains(*X) || X->strictly_contains(*T) || T->strictly_contains(*X)) { violation(key("C04.pred", "contains", "twin"), "containment between equal point sets answered wrongly; " + ctx); ok = false; return; }
+    bool ne = ref::feasible(n, SA);
+    a << X->is_empty() << X->is_universe() << X->is_bounded() << X->affine_dimension() << X->is_disjoint_from(*T);
+    b << T->is_empty() << T->is_universe() << T->is_bounded() << T->affine_dimension() << T->is_disjoint_from(*X);
+    if (ne) for (int i = 0; i < n; ++i) { a << X->constrains(Variable(i)); b << T->constrains(Variable(i)); }
+    for (int k = 0; k < 3; ++k) {
+      Linear_Expression e = rexpr(n, 30); Coefficient n1, d1, n2, d2; bool m1, m2;
+      bool o1 = X->maximize(e, n1, d1, m1), o2 = T->maximize(e, n2, d2, m2);
+      a << o1; b << o2; if (o1 && o2) { a << ref::toQ(n1) / ref::toQ(d1) << m1; b << ref::toQ(n2) / ref::toQ(d2) << m2; }
+      Constraint cn = any_con(n, true); a << str(X->relation_with(cn)); b << str(T->relation_with(cn));
+    }
+    checked();
+    if (a.str() != b.str()) { violation(key("C04.pred", "answers", "twin"), "original answers " + a.str() + " twin answers " + b.str() + "; " + ctx); ok = false; }
+  })) return false;
+  return ok;
+}
+
+// ---------- one case ----------
+static SP build_initial(const Entry& E, int n, std::string& how_text) {
+  SP p; int how = rnd(0, 9); std::ostringstream o;
+  if (how < 5) { p.reset(E.make(n, false)); int k = rnd(0, 5); std::vector<Constraint> cv; for (int j = 0; j < k; ++j) { cv.push_back(rep_con(n, g.kind)); p->add_constraint(cv.back()); } o << "{" << str_cons(cv) << "}"; }
+  else if (how < 7) { p.reset(E.make(n, false)); int k = rnd(0, 4); std::vector<Constraint> cv; Constraint_System cs; for (int j = 0; j < k; ++j) { cv.push_back(coin(60) ? rep_con(n, g.kind) : any_con(n, true)); cs.insert(cv.back()); } p->refine_with_constraints(cs); o << "refined{" << str_cons(cv) << "}"; }
+  else if (how < 9) { SP u(E.make(n, false)); Generator_System gs; int k = rnd(1, 4); std::ostringstream d; for (int j = 0; j < k; ++j) { Generator x = rand_gen(n, false, j == 0); gs.insert(x); d << " " << str(x); } p.reset(u->from_generators(gs)); if (p->dim() < n) p->add_space_dimensions_and_project(n - p->dim()); o << "gens{" << d.str() << " }"; }
+  else { bool e = coin(); p.reset(E.make(n, e)); o << (e ? "EMPTY" : "UNIVERSE"); }
+  how_text = o.str();
+  return p;
+}
+
+static void run_case_for(const Entry& E) {
+  g.E = &E; g.inst = E.inst; g.kind = E.kind; g.ti = E.ti;
+  const std::string profile = hx::opt().profile;
+  int limit_pct = (profile == "limits") ? 100 : (E.ti.exact ? 15 : 40);
+  g.limit_case = coin(limit_pct);
+  int dk = rnd(0, 99); int n = dk < 5 ? 0 : dk < 25 ? 1 : dk < 65 ? 2 : 3;
+  if (hx::opt().thorough && dk >= 92) n = 4;
+  const int NP = 3;
+  std::vector<SP> pool(NP); std::vector<std::string> lastop(NP, "construction");
+  hx::count("cases." + E.short_name);
+  {
+    std::ostringstream o; o << E.inst << (g.limit_case ? " [limits]" : "") << " n=" << n << " init:";
+    bool ok = guarded("construction", [&]() { for (int i = 0; i < NP; ++i) { std::string h; pool[i] = build_initial(E, n, h); o << " #" << i << "=" << h; } });
+    tr(o.str());
+    if (!ok) return;
+  }
+  int steps = rnd(4, 12);
+  for (int stp = 0; stp < steps && !hx::st().case_tainted; ++stp) {
+    hx::count("steps");
+    StepCtx c(pool, lastop); c.n = n; c.ai = rnd(0, NP - 1); c.bi = rnd(0, NP - 1);
+    if (!status_word(c.A(), c.stw, lastop[c.ai])) return;
+    if (!observe(c.A(), c.SA, lastop[c.ai]) || !observe(c.B(), c.SB, lastop[c.bi])) return;
+    hx::count("status." + std::string(g.kind == K_BD ? "bd." : "oct.") + c.stw);
+    c.clsA = shape_class(n, c.SA); c.clsB = shape_class(n, c.SB);
+    { std::ostringstream pre; pre << " | #" << c.ai; c.pre = pre.str(); }
+    int w_mut = 52, w_query = 15, w_obs = 8, w_ctor = 10, w_dims = 8, w_copy = 3, w_twin = 4;
+    if (profile == "exact") { w_mut = 40; w_query = 25; w_twin = 10; w_obs = 7; w_ctor = 8; w_dims = 7; w_copy = 3; }
+    if (!E.ti.exact) { w_mut += w_twin; w_twin = 0; }
+    int kind = rnd(0, w_mut + w_query + w_obs + w_ctor + w_dims + w_copy + w_twin - 1);
+    bool ok;
+    if (kind < w_mut) ok = mutate(c);
+    else if ((kind -= w_mut) < w_query) {
+      ok = queries(c);
+      if (ok) { // queries are observers: no point may disappear (and over rationals nothing may change)
+        Sys now; if (!observe(c.A(), now, "query")) return;
+        ok = check_sound("query", "", ref::esys_of(c.SA, n), now, "a query changed its receiver");
+        if (ok && E.ti.exact) { checked(); if (!sys_included(n, now, c.SA)) { violation(key("C04.exact", "query"), "a query changed the denoted set"); ok = false; } }
+      }
+    }
+    else if ((kind -= w_query) < w_obs) ok = observers(c);
+    else if ((kind -= w_obs) < w_ctor) ok = constructors(c);
+    else if ((kind -= w_ctor) < w_dims) ok = dims_op(c);
+    else if ((kind -= w_dims) < w_copy) {
+      int how = rnd(0, 2); ok = true;
+      tr(c.pre + (how == 0 ? " = copy(#" : how == 1 ? " = #" : ".m_swap(#") + std::to_string(c.bi) + ")"); hx::count("op.copy_assign_swap");
+      ok = guarded("copy", [&]() { if (how == 0) { if (c.ai != c.bi) pool[c.ai].reset(pool[c.bi]->clone()); } else if (how == 1) pool[c.ai]->assign(*pool[c.bi]); else pool[c.ai]->m_swap(*pool[c.bi]); });
+      if (ok) { Sys RA; if (!observe(*pool[c.ai], RA, "copy")) return; ok = check_sound("copy_assign_swap", "", ref::esys_of(c.SB, n), RA, "copy/assignment/swap lost points of its source"); if (how == 2) std::swap(lastop[c.ai], lastop[c.bi]); else lastop[c.ai] = lastop[c.bi]; }
+    }
+    else ok = twin_check(c);
+    if (!ok) return;
+  }
+}
+
+static const Entry* find_entry(const std::string& name) {
+  std::vector<Entry>& t = table();
+  for (size_t i = 0; i < t.size(); ++i) if (t[i].short_name == name || t[i].inst == name) return &t[i];
+  return 0;
+}
+
+int main(int argc, char** argv) {
+  std::vector<Entry>& t = table();
+  std::sort(t.begin(), t.end(), [](const Entry& a, const Entry& b) { return a.short_name < b.short_name; });
+  return hx::main_loop(argc, argv, [&](uint64_t) {
+    std::string inst = hx::opt().gets("inst", "all");
+    const Entry* e;
+    if (inst == "all") e = &t[(size_t) hx::st().cur_case % t.size()];
+    else if (inst == "rational") { std::vector<const Entry*> r; for (size_t i = 0; i < t.size(); ++i) if (t[i].ti.exact) r.push_back(&t[i]); e = r[(size_t) hx::st().cur_case % r.size()]; }
+    else { e = find_entry(inst); if (!e) { fprintf(stderr, "unknown inst %s; known:", inst.c_str()); for (size_t i = 0; i < t.size(); ++i) fprintf(stderr, " %s", t[i].short_name.c_str()); fprintf(stderr, "\n"); exit(2); } }
+    run_case_for(*e);
+  }, []() { hx::count("lp_solves", ref::lp_counters().solves); hx::count("lp_pivots", ref::lp_counters().pivots); });
 }
